@@ -112,6 +112,10 @@ impl Prop for C07Prop {
             };
             v.push(Scenario::Link(scn_for(p, buf, "directed-small-scope")));
         }
+        // frames whose checksum is all zeros / all ones / looks like escape, end or start bytes
+        for p in gen::special_crc_payloads() {
+            v.push(Scenario::Link(scn_for(p.clone(), BufKind::Vec, "directed-special-crc")));
+        }
         for n in (252..=260).chain(1020..=1028) {
             for fill in [0x55u8, 0x1b, 0x00] {
                 v.push(Scenario::Link(scn_for(vec![fill; n], BufKind::Vec, "directed-len")));
